@@ -67,6 +67,32 @@ def run(tier, rep):
         pl, enc = gen_messages.build("4076_201", corp.bundle, rnd, values=vals, count="typ", overrides=ov)
         if pl is not None:
             add(pl, "4076_201", f"harm:{l + 1}x{n + 1}x{m + 1}")
+    # zero-valued fields (a value the helper might mistake for "absent"): layer heights of 0, all-zero
+    # coefficient sets, whole messages of zeros; and extreme values
+    for l in range(4):
+        for zero_at in range(1, l + 2):
+            ov = {"IDF035": l, f"IDF036_{zero_at:02d}": 0}
+            for i in range(1, l + 2):
+                ov[f"IDF037_{i:02d}"] = rnd.choice([0, 1, 3])
+                ov[f"IDF038_{i:02d}"] = rnd.choice([0, 1, 2])
+            pl, enc = gen_messages.build("4076_201", corp.bundle, rnd, values={"*": "random"}, count="typ", overrides=ov)
+            if pl is not None:
+                add(pl, "4076_201", f"harm:zero-height@{zero_at}/{l + 1}")
+    for prof in ("zero", "max", "min"):
+        for ov in ({"IDF035": 0}, {"IDF035": 2}):
+            try:
+                pl, enc = gen_messages.build("4076_201", corp.bundle, rnd, values=prof, count="typ", overrides=ov)
+            except Exception:  # pylint: disable=broad-except
+                pl = None
+            if pl is not None:
+                add(pl, "4076_201", f"harm:{prof}")
+        for ident in ("1074", "1087", "1127"):
+            try:
+                pl, enc = gen_messages.build(ident, corp.bundle, rnd, values=prof, count="typ", mask="dense")
+            except Exception:  # pylint: disable=broad-except
+                pl = None
+            if pl is not None:
+                add(pl, ident, f"msm:{prof}")
     # every other identity
     others = [i for i, t in corp.bundle["table"].items() if t != "msm" and i != "4076_201"]
     for ident, pn, pl, enc in gen_messages.corpus(corp.bundle, "c18o", per_ident=1, idents=sorted(others)):
